@@ -23,28 +23,38 @@ variable {Val : Type} (sem : String → List Val → Option Val)
 def EnvOK (env : String → Option Val) (p : List (PStep Val)) : Prop :=
   ∀ n v, PStep.input n v ∈ p → env n = some v
 
+/-- Every value-dependent shortcut a program takes is semantically neutral (the requirement the property names); programs
+that take shortcuts are considered over total operator semantics and environments that bind every placeholder. -/
+def ShortcutsNeutral (env : String → Option Val) (p : List (PStep Val)) : Prop :=
+  ∀ op args g choice, PStep.guarded op args g choice ∈ p →
+    Neutral sem op args.length g choice ∧ Total sem ∧ ∀ n, ∃ v, env n = some v
+
 theorem stepsRel_of_prog (env : String → Option Val) (lz1 lz2 : String → Bool)
     (hl : ∀ n, lz1 n = true → lz2 n = true) :
-    ∀ (p : List (PStep Val)), EnvOK env p →
-      StepsRel env (p.map (PStep.toStep lz1)) (p.map (PStep.toStep lz2)) := by
+    ∀ (p : List (PStep Val)), EnvOK env p → ShortcutsNeutral sem env p →
+      StepsRel sem env (p.map (PStep.toStep lz1)) (p.map (PStep.toStep lz2)) := by
   intro p
   induction p with
-  | nil => intro _; exact .nil
+  | nil => intro _ _; exact .nil
   | cons s ss ih =>
-    intro henv
+    intro henv hN
     have hss : EnvOK env ss := fun n v hm => henv n v (List.mem_cons_of_mem _ hm)
-    refine .cons ?_ (ih hss)
+    have hNs : ShortcutsNeutral sem env ss := fun op args g choice hm => hN op args g choice (List.mem_cons_of_mem _ hm)
+    refine .cons ?_ (ih hss hNs)
     cases s with
+    | guarded op args g choice =>
+      obtain ⟨h1, h2, h3⟩ := hN op args g choice (by simp)
+      exact .guarded op args g choice h1 h2 h3
     | input n v =>
       simp only [PStep.toStep]
       by_cases h1 : lz1 n = true
-      · simp [h1, hl n h1]; exact .same _
+      · simp [h1, hl n h1]; exact .same _ rfl
       · by_cases h2 : lz2 n = true
         · simp [h1, h2]; exact .bind n v (henv n v (by simp))
-        · simp [h1, h2]; exact .same _
-    | prim op args => exact .same _
-    | copy r => exact .same _
-    | set d s => exact .same _
+        · simp [h1, h2]; exact .same _ rfl
+    | prim op args => exact .same _ rfl
+    | copy r => exact .same _ rfl
+    | set d s => exact .same _ rfl
 
 /-- **Refinement, general form.** A run that is *less eager* (more placeholders, or onnxruntime
 absent) simulates a run that is more eager: it succeeds whenever the latter does, cell by cell it
@@ -52,23 +62,24 @@ denotes the same value under the binding environment, and whatever value it repo
 run reports too. -/
 theorem refinement_general (env : String → Option Val) (o1 o2 : Bool) (ho : o2 = true → o1 = true)
     (lz1 lz2 : String → Bool) (hl : ∀ n, lz1 n = true → lz2 n = true)
-    (p : List (PStep Val)) (henv : EnvOK env p) (he : Heap Val)
+    (p : List (PStep Val)) (henv : EnvOK env p) (hN : ShortcutsNeutral sem env p) (he : Heap Val)
     (hrun : runProg sem o1 lz1 p [] = some he) :
     ∃ hlz, runProg sem o2 lz2 p [] = some hlz ∧ Rel sem env he hlz :=
-  run_sim sem env o1 o2 ho _ _ (stepsRel_of_prog env lz1 lz2 hl p henv) [] [] he
+  run_sim sem env o1 o2 ho _ _ (stepsRel_of_prog sem env lz1 lz2 hl p henv hN) [] [] he
     (rel_nil sem env) closed_nil closed_nil hrun
 
-/-- **C01 (partial: programs over primitives, copies and in-place updates).** Eager evaluation
-(`lz1 = none lazy`) against tracing with an arbitrary subset `S` of the inputs as placeholders:
-the traced program exists and every cell denotes the eagerly reported value. -/
+/-- **C01 (programs over primitives, copies, in-place updates and value-dependent shortcuts).** Eager evaluation
+(`lz1 = none lazy`) against tracing with an arbitrary subset `S` of the inputs as placeholders: the traced program
+exists and every cell denotes the eagerly reported value — provided every shortcut the program takes is semantically
+neutral (`ShortcutsNeutral`; for programs without shortcuts the hypothesis is vacuous, see `refinement_no_shortcuts`). -/
 theorem refinement_partial (env : String → Option Val) (ort : Bool) (S : String → Bool)
-    (p : List (PStep Val)) (henv : EnvOK env p) (he : Heap Val)
+    (p : List (PStep Val)) (henv : EnvOK env p) (hN : ShortcutsNeutral sem env p) (he : Heap Val)
     (hrun : runProg sem ort (fun _ => false) p [] = some he) :
     ∃ hlz, runProg sem ort S p [] = some hlz ∧ hlz.length = he.length ∧
       ∀ (i : Nat) (c c' : Cell Val), he[i]? = some c → hlz[i]? = some c' →
         ∀ v, c.eager = some v → eval sem env c'.var = some v := by
   obtain ⟨hlz, h1, h2⟩ := refinement_general sem env ort ort (fun h => h) (fun _ => false) S
-    (by intro n h; simp at h) p henv he hrun
+    (by intro n h; simp at h) p henv hN he hrun
   refine ⟨hlz, h1, h2.1.symm, ?_⟩
   intro i c c' hc hc' v hv
   have hclosed : Closed he := run_closed sem ort _ [] he closed_nil hrun
@@ -82,6 +93,46 @@ example :
     (runProg sem true (fun _ => false) p []).map (·.map (·.eager)) = some [some 12, some 7, some 12]
     ∧ (runProg sem true (· == "x") p []).map (·.map (fun c => eval sem (fun n => if n == "x" then some 5 else none) c.var))
         = some [some 12, some 7, some 12] := by decide
+
+/-- Programs without shortcuts need no neutrality hypothesis. -/
+theorem refinement_no_shortcuts (env : String → Option Val) (ort : Bool) (S : String → Bool)
+    (p : List (PStep Val)) (henv : EnvOK env p)
+    (hns : ∀ op args g choice, PStep.guarded op args g choice ∉ p) (he : Heap Val)
+    (hrun : runProg sem ort (fun _ => false) p [] = some he) :
+    ∃ hlz, runProg sem ort S p [] = some hlz ∧ hlz.length = he.length ∧
+      ∀ (i : Nat) (c c' : Cell Val), he[i]? = some c → hlz[i]? = some c' →
+        ∀ v, c.eager = some v → eval sem env c'.var = some v :=
+  refinement_partial sem env ort S p henv (fun op args g choice hm => absurd hm (hns op args g choice)) he hrun
+
+/-- Non-vacuity of the shortcut case: `Where` over integers ("c ≠ 0 selects x"), guarded on operand 0 with the choice
+"true → operand 1, false → operand 2" — both shortcuts of `where` — is neutral and total; the eager run (condition holds
+data) copies the selected branch, the traced run (condition a placeholder) emits the node, and both denote the same. -/
+def whereSem : String → List Int → Option Int
+  | "Where", [c, x, y] => some (if c ≠ 0 then x else y)
+  | _, vs => some vs.sum
+
+def whereChoice (c : Int) : Option Nat := if c ≠ 0 then some 1 else some 2
+
+theorem where_neutral : Neutral whereSem "Where" 3 0 whereChoice := by
+  intro vs v k hl hg hch hk
+  match vs, hl, hg with
+  | [c, x, y], _, hg =>
+    simp at hg; subst hg
+    unfold whereChoice at hch
+    by_cases hc : c ≠ 0
+    · simp [hc] at hch; subst hch; simp [whereSem, hc]
+    · simp [hc] at hch; subst hch; simp [whereSem, hc]
+
+theorem where_total : Total whereSem := by
+  intro op vs
+  unfold whereSem
+  split <;> exact ⟨_, rfl⟩
+
+example :
+    let p : List (PStep Int) := [.input "c" 0, .input "x" 5, .input "y" 7, .guarded "Where" [0, 1, 2] 0 whereChoice]
+    (runProg whereSem true (fun _ => false) p []).map (·.map (·.eager)) = some [some 0, some 5, some 7, some 7]
+    ∧ (runProg whereSem true (· == "c") p []).map (·.map (fun c => eval whereSem (fun n => if n == "c" then some 0 else none) c.var))
+        = some [some 0, some 5, some 7, some 7] := by decide
 
 /-! ## The value-dependent shortcuts: their guards make them shape-neutral
 
